@@ -115,8 +115,111 @@ class _Norm(ast.NodeTransformer):
         return node
 
 
+
+# --------------------------------------------------------------------------------------------- N7 / N8 block shape
+def _terminates(body):
+    return bool(body) and isinstance(body[-1], (ast.Return, ast.Raise, ast.Continue, ast.Break))
+
+
+class _Blocks(ast.NodeTransformer):
+    """N7: `t = E` immediately followed by `return t`, t used nowhere else in the function -> `return E`.
+    N8: `if c: ...<exit>  else: rest` -> `if c: ...<exit>` followed by rest (guard-clause form); when only the else
+    part ends in an exit, the test is negated first."""
+
+    def __init__(self):
+        self.uses = None
+
+    def visit_FunctionDef(self, node):
+        outer = self.uses
+        # names that are only ever assigned and then returned by the very next statement: inlining is exact
+        loads, stores, pairs = {}, {}, {}
+        for n in ast.walk(node):
+            if isinstance(n, ast.Name):
+                d = loads if isinstance(n.ctx, ast.Load) else stores
+                d[n.id] = d.get(n.id, 0) + 1
+            for f in ('body', 'orelse', 'finalbody'):
+                b = getattr(n, f, None)
+                if isinstance(b, list) and b and isinstance(b[0], ast.stmt):
+                    for a, r in zip(b, b[1:]):
+                        if isinstance(a, ast.Assign) and len(a.targets) == 1 and isinstance(a.targets[0], ast.Name) and \
+                                isinstance(r, ast.Return) and isinstance(r.value, ast.Name) and \
+                                r.value.id == a.targets[0].id and \
+                                not any(isinstance(x, ast.Name) and x.id == r.value.id for x in ast.walk(a.value)):
+                            pairs[r.value.id] = pairs.get(r.value.id, 0) + 1
+        self.uses = {nm: 2 for nm, k in pairs.items() if loads.get(nm, 0) == k and stores.get(nm, 0) == k}
+        self.generic_visit(node)
+        self.uses = outer
+        return node
+    visit_AsyncFunctionDef = visit_FunctionDef
+
+    @staticmethod
+    def _size(stmts):
+        return sum(1 for st in stmts for x in ast.walk(st) if isinstance(x, ast.stmt))
+
+    @staticmethod
+    def _negate(test):
+        if isinstance(test, ast.UnaryOp) and isinstance(test.op, ast.Not):
+            return test.operand
+        neg = ast.copy_location(ast.UnaryOp(op=ast.Not(), operand=test), test)
+        return _Norm().visit(neg)
+
+    @staticmethod
+    def _is_negative(test):
+        return (isinstance(test, ast.UnaryOp) and isinstance(test.op, ast.Not)) or \
+            (isinstance(test, ast.Compare) and len(test.ops) == 1 and
+             isinstance(test.ops[0], (ast.NotEq, ast.IsNot, ast.NotIn)))
+
+    def _fix(self, body):
+        out = []
+        for idx, st in enumerate(body):
+            # N7
+            if isinstance(st, ast.Return) and isinstance(st.value, ast.Name) and out and self.uses is not None and \
+                    isinstance(out[-1], ast.Assign) and len(out[-1].targets) == 1 and \
+                    isinstance(out[-1].targets[0], ast.Name) and out[-1].targets[0].id == st.value.id and \
+                    self.uses.get(st.value.id, 0) == 2:
+                prev = out.pop()
+                out.append(ast.copy_location(ast.Return(value=prev.value), prev))
+                continue
+            # N8: an `if` one of whose parts ends in an exit, together with what follows it in the block
+            if isinstance(st, ast.If) and getattr(st, '_n8_done', False) and not st.orelse:
+                out.append(st)
+                out.extend(body[idx + 1:])
+                return out
+            if isinstance(st, ast.If) and (_terminates(st.body) or (st.orelse and _terminates(st.orelse))):
+                st._n8_done = True
+                if not _terminates(st.body):
+                    st.test, st.body, st.orelse = self._negate(st.test), st.orelse, st.body
+                a = st.body
+                rest = self._fix(list(st.orelse) + list(body[idx + 1:])) if not _terminates(st.orelse) or True else []
+                if st.orelse and _terminates(st.orelse):
+                    rest = self._fix(list(st.orelse))        # what followed the if/else was unreachable
+                st.orelse = []
+                # canonical guard: when the rest exits as well, the smaller part is the guard; ties go to the
+                # positive test
+                if _terminates(rest):
+                    sa, sr = self._size(a), self._size(rest)
+                    if sr < sa or (sr == sa and self._is_negative(st.test)):
+                        st.test, st.body, rest = self._negate(st.test), rest, a
+                out.append(st)
+                out.extend(rest)
+                return out
+            out.append(st)
+        return out
+
+    def generic_visit(self, node):
+        node = super().generic_visit(node)
+        if isinstance(node, ast.Lambda):
+            return node
+        for f in ('body', 'orelse', 'finalbody'):
+            b = getattr(node, f, None)
+            if isinstance(b, list) and b and isinstance(b[0], ast.stmt):
+                setattr(node, f, self._fix(b))
+        return node
+
+
 def normalize_expr_tree(tree):
     """N1-N4 on any AST (modules of the program, and the fragments the rules are written in)."""
+    tree = _Blocks().visit(tree)        # guard-clause form first: what is left with an else has no exiting branch
     tree = _Norm().visit(tree)
     return tree
 
